@@ -663,6 +663,47 @@ func rangeBodyAlways(c *Ctx, rule string, fn *ssa.Function, key, ranged string, 
 	}
 }
 
+// rangeBodyAlwaysIf: like rangeBodyAlways, but the event is required only in
+// iterations where the guard predicate held the last time it was evaluated
+// (or was never evaluated).
+func rangeBodyAlwaysIf(c *Ctx, rule string, fn *ssa.Function, key, ranged string, ev func(ssa.Instruction) bool, guard engine.Track, require string) {
+	found := 0
+	engine.EachInstr(fn, func(in ssa.Instruction) {
+		ifi, ok := in.(*ssa.If)
+		if !ok {
+			return
+		}
+		cd := c.P.CondOf(ifi.Cond)
+		isLoop := false
+		if cd.IsRel && cd.X == "idx(range)" && cd.Y == "len("+ranged+")" && cd.EdgeOrd(true) == engine.LT {
+			isLoop = true
+		}
+		if !cd.IsRel && cd.B == "more(range "+ranged+")" && !cd.Neg {
+			isLoop = true
+		}
+		if !isLoop {
+			return
+		}
+		body := ifi.Block().Succs[0]
+		r := c.Run(&engine.Automaton{Fn: fn, StartBlock: body, Tracks: []engine.Track{engine.Event("ev", ev), guard},
+			StopAt: func(x ssa.Instruction) bool { return x == ssa.Instruction(ifi) }})
+		any := false
+		for _, v := range r.StatesAt(ifi) {
+			if v.Seen("ev") {
+				any = true
+			}
+		}
+		if !any {
+			return
+		}
+		found++
+		c.RequireAt(r, rule, key, ifi, require, func(v engine.View) bool { return v.Seen("ev") || v.F(guard.Name) })
+	})
+	if found == 0 {
+		c.Bad(rule, key, c.P.Pos(fn.Pos()), require, "no range loop over "+ranged+" containing the effect")
+	}
+}
+
 // ---------------------------------------------------------------------------
 // S-BOOTSTRAP: bootstrapping (which writes term 1 and log entry 1) is refused
 // whenever any persisted state exists.
